@@ -229,7 +229,7 @@ impl Check for C20 {
     }
     fn rule(&self) -> String {
         "per case 1-10 requests against a fresh receiver session (ECMAScript 70 % / rfsm-expression) on an executor with the BasicHTTP processor (127.0.0.1:5555), issued by 1-8 concurrent posters released by a barrier: valid POSTs with 1-3 extra fields / only _content / only the event name; POSTs to an unknown session id, without _scxmleventname, with a non-numeric session path; and events sent by a second session with <send type='basichttp' | the full URI> to the location the receiver reads from _ioprocessors (a string and an integer parameter). Event names, field names and values are drawn from an alphabet with space & = + % # ? / é 日 newline quotes < ; ~ and dots/brackets in names; bodies are written by the harness' own percent-encoder with generated spelling choices ('+' or %20, upper/lower hex, needlessly encoded letters); requests go over a raw TCP socket. \
-         Oracle: valid POST -> status 2xx and exactly one event with that name processed before the sentinel, whose _event.data holds exactly the other fields (ECMAScript: sorted key/value list as JSON; rfsm-expression: fixed keys k1..k3) or the _content value, or nothing; invalid request -> status >= 400 and no event; session send -> exactly one event with that name and the textual form of both parameters. \
+         Oracle: valid POST -> status 2xx and exactly one event with that name processed before the sentinel, whose _event.data holds exactly the other fields (ECMAScript: sorted key/value list as JSON; rfsm-expression: fixed keys k1..k3) or the _content value, or nothing; invalid request -> status >= 400 and no event; session send -> exactly one event with that name and the textual form of both parameters; the valid POSTs of one poster (which waits for each response) are processed in the order they were posted. \
          Non-trivial = a name, field name or value needed percent-encoding, or >= 2 concurrent posters; distinct = hash of the request list."
             .into()
     }
@@ -443,6 +443,17 @@ impl Check for C20 {
                         return CaseResult::fail(hash, "sent-data-differs", format!("request {} {:?}: receiver mark {:?} :: {}", i, r, m.args, ctx()));
                     }
                 }
+            }
+        }
+        // each poster waits for the response before it issues its next request: its events keep their order
+        for p in 0..posters {
+            let mine: Vec<&String> = sc.reqs.iter().enumerate().filter(|(i, (r, _))| i % posters == p && matches!(r, Req::Fields { .. } | Req::Content { .. } | Req::NameOnly { .. })).map(|(_, (r, _))| match r {
+                Req::Fields { name, .. } | Req::Content { name, .. } | Req::NameOnly { name } => name,
+                _ => unreachable!(),
+            }).collect();
+            let seen: Vec<&String> = rxs.iter().filter_map(|m| m.args.first()).filter(|n| mine.contains(n)).collect();
+            if seen != mine {
+                return CaseResult::fail(hash, "poster-order", format!("poster {} posted {:?} one after the other, the receiver processed them as {:?} :: {}", p, mine, seen, ctx()));
             }
         }
         // nothing else arrived
